@@ -282,6 +282,11 @@ def search(ctx, why):
     t = ps.Tupl(ps.HexInt(), ps.FixStr("/"), ps.Seq(ps.DecInt(), 1))
     for a in alpha:
         _check_value(found, "tupl:roundtrip", t, "Tupl(HexInt(),FixStr('/'),Seq(DecInt(),1))", ([a], [], [[a]]), ([a], [], [[a]]), 1, 1)
+    # 3b. the custom yajilin clue combinator (every clue kind its decoder can produce, numbers across 15/16)
+    from cspuz.puzzle.yajilin import YajilinClue
+    for clue in ("^0", "v9", "<15", ">16", "^17", "v255", "??"):
+        _check_value(found, "yajilin:clue-roundtrip", ps.Seq(ps.OneOf(YajilinClue(), ps.Spaces("..", "a")), 2),
+                     "Seq(OneOf(YajilinClue(),Spaces('..','a')),2)", [clue, ".."], [clue, ".."], 1, 1)
     # 4. a few random larger boards
     for _ in range(300):
         h, w = rng.randint(1, 6), rng.randint(1, 6)
@@ -296,6 +301,8 @@ def replay(ctx, data):
     import cspuz.problem_serializer as ps
     ns = {k: getattr(ps, k) for k in ("FixStr", "Dict", "Spaces", "DecInt", "HexInt", "IntSpaces", "MultiDigit", "OneOf",
                                       "Tupl", "Seq", "Grid", "Rooms", "ValuedRooms")}
+    from cspuz.puzzle.yajilin import YajilinClue
+    ns["YajilinClue"] = YajilinClue
     if data.get("kind") == "oob":
         rooms = pyast.literal_eval(data["rooms"])
         o = sc.run_guarded(lambda: ps.serialize_problem(ps.Rooms(), rooms, height=data["h"], width=data["w"]), 10)
